@@ -8,29 +8,29 @@ class Inert0:
         return 0
 
 
-def describe_arg(a):
+def describe_arg(a, inert=False):
     v = valida()
-    if isinstance(a, v.DataPath):
+    if isinstance(a, v.DataPath) and not inert:
         return ("path", describe_path(a))
-    return a
+    return a          # inside a path part a data-path argument stays an opaque object (tag 0), as in the model (Descr.v)
 
 
-def describe_cond(c):
+def describe_cond(c, inert=False):
     v = valida()
     if isinstance(c, v.conditions.NullCondition):
         return ("null",)
     if isinstance(c, v.conditions.ConditionBinaryOp):
-        return (c.FLATTEN_SYMBOL, describe_cond(c.children[0]), describe_cond(c.children[1]))
-    return ("leaf", type(c).__name__, c.callable.name, [describe_arg(a) for a in c.callable.args],
-            {k: describe_arg(a) for k, a in c.callable.kwargs.items()})
+        return (c.FLATTEN_SYMBOL, describe_cond(c.children[0], inert), describe_cond(c.children[1], inert))
+    return ("leaf", type(c).__name__, c.callable.name, [describe_arg(a, inert) for a in c.callable.args],
+            {k: describe_arg(a, inert) for k, a in c.callable.kwargs.items()})
 
 
 def describe_part(p):
     v = valida()
     name = type(p).__name__
     if isinstance(p, v.datapath.MapOrListValue):
-        return (name, describe_cond(p.condition), describe_cond(p.list_condition), describe_cond(p.map_condition), p.label)
-    return (name, describe_cond(p.condition), p.label)
+        return (name, describe_cond(p.condition, True), describe_cond(p.list_condition, True), describe_cond(p.map_condition, True), p.label)
+    return (name, describe_cond(p.condition, True), p.label)
 
 
 def describe_path(p):
